@@ -322,6 +322,37 @@ pub assume_specification<F: core::str::FromStr>[ str::parse::<F> ](s: &str) -> (
         r is Ok <==> parse_spec::<F>(s@) is Some,
         r is Ok ==> Some(r->Ok_0) == parse_spec::<F>(s@);
 
+/// `[a, b, ..].concat()`: generic over element and output type, so the result is tied to the input by an uninterpreted
+/// relation that the axioms below define for the instantiations the crate uses (slices and vectors of bytes)
+#[verifier::external_trait_specification]
+pub trait ExConcat<Item: ?Sized> {
+    type ExternalTraitSpecificationFor: std::slice::Concat<Item>;
+    type Output;
+}
+pub uninterp spec fn concat_rel<T, Item: ?Sized, O>(s: Seq<T>, out: O) -> bool;
+pub assume_specification<T, Item: ?Sized>[ <[T]>::concat::<Item> ](s: &[T]) -> (r: <[T] as std::slice::Concat<Item>>::Output)
+    where [T]: std::slice::Concat<Item>
+    ensures concat_rel::<T, Item, <[T] as std::slice::Concat<Item>>::Output>(s@, r);
+/// ASSUMPTION: concatenation of byte slices / byte vectors is the concatenation of their contents
+pub broadcast axiom fn axiom_concat_slices(s: Seq<&[u8]>, out: Vec<u8>)
+    requires #[trigger] concat_rel::<&[u8], u8, Vec<u8>>(s, out),
+    ensures out@ == flatten(s.map_values(|x: &[u8]| x@));
+pub broadcast axiom fn axiom_concat_vecs(s: Seq<Vec<u8>>, out: Vec<u8>)
+    requires #[trigger] concat_rel::<Vec<u8>, u8, Vec<u8>>(s, out),
+    ensures out@ == flatten(s.map_values(|x: Vec<u8>| x@));
+pub broadcast axiom fn axiom_concat_arrays2(s: Seq<[u8; 2]>, out: Vec<u8>)
+    requires #[trigger] concat_rel::<[u8; 2], u8, Vec<u8>>(s, out),
+    ensures out@ == flatten(s.map_values(|x: [u8; 2]| x@));
+
+/// ASSUMPTION: `usize::to_string` is the decimal text
+/// (vstd's `ToString::to_string` contract is `to_string_from_display_ensures`, uninterpreted for usize)
+pub broadcast axiom fn axiom_usize_to_string(n: &usize, s: String)
+    ensures #[trigger] vstd::string::to_string_from_display_ensures::<usize>(n, s) ==> s@ == dec_str(*n);
+
+/// ASSUMPTION: `String::as_bytes` / `str::as_bytes` is the UTF-8 encoding
+pub assume_specification[ String::as_bytes ](s: &String) -> (r: &[u8])
+    ensures r@ == utf8_encode(s@);
+
 /// std functions that PANIC on a bad argument get their panic condition as a precondition, so that code which starts
 /// using them is checked (a small catalogue; anything not listed makes the run inconclusive, never an alarm)
 pub uninterp spec fn is_char_boundary_spec(s: Seq<char>, byte_index: usize) -> bool;
@@ -390,9 +421,11 @@ pub assume_specification<'a, T, A: core::alloc::Allocator>[ <&'a VecDeque<T, A> 
 
 // ---- packets and traces -----------------------------------------------------------------------
 
-/// UTF-8 decoding of a byte string (uninterpreted; `None` = invalid UTF-8) and encoding of a string
-pub uninterp spec fn utf8_decode(b: Seq<u8>) -> Option<Seq<char>>;
-pub uninterp spec fn utf8_encode(s: Seq<char>) -> Seq<u8>;
+/// UTF-8 decoding of a byte string (`None` = invalid UTF-8) and encoding of a string: vstd's definitions
+pub open spec fn utf8_decode(b: Seq<u8>) -> Option<Seq<char>> {
+    if vstd::utf8::valid_utf8(b) { Some(vstd::utf8::decode_utf8(b)) } else { None }
+}
+pub open spec fn utf8_encode(s: Seq<char>) -> Seq<u8> { vstd::utf8::encode_utf8(s) }
 
 /// RFC 2348/2349/7440 option names
 pub open spec fn option_name(o: OptionType) -> Seq<char> {
@@ -488,6 +521,36 @@ pub proof fn lemma_opts_step(buf: Seq<u8>, z: int, name: Seq<char>, z1: int, val
                 assert(opts_decode(buf, z, rest));
             }
         }
+    }
+}
+
+/// decimal text of a number (uninterpreted; `usize::to_string`)
+pub uninterp spec fn dec_str(n: usize) -> Seq<char>;
+
+/// SPECIFICATION (C11): the RFC 1350 / 2347 wire layout of a packet
+pub open spec fn enc_opt(o: TransferOption) -> Seq<u8> {
+    utf8_encode(option_name(o.option)) + seq![0u8] + utf8_encode(dec_str(o.value)) + seq![0u8]
+}
+pub open spec fn enc_opts(o: Seq<TransferOption>) -> Seq<u8>
+    decreases o.len()
+{
+    if o.len() == 0 { Seq::<u8>::empty() } else { enc_opts(o.drop_last()) + enc_opt(o.last()) }
+}
+pub proof fn lemma_enc_opts_step(o: Seq<TransferOption>, i: int)
+    requires 0 <= i < o.len(),
+    ensures enc_opts(o.subrange(0, i + 1)) == enc_opts(o.subrange(0, i)) + enc_opt(o[i]),
+{
+    assert(o.subrange(0, i + 1).drop_last() =~= o.subrange(0, i));
+}
+pub open spec fn be_bytes(n: u16) -> Seq<u8> { seq![(n / 256) as u8, (n % 256) as u8] }
+pub open spec fn enc(p: PktV) -> Seq<u8> {
+    match p {
+        PktV::Rrq { filename, mode, options } => seq![0u8, 1u8] + utf8_encode(filename) + seq![0u8] + utf8_encode(mode) + seq![0u8] + enc_opts(options),
+        PktV::Wrq { filename, mode, options } => seq![0u8, 2u8] + utf8_encode(filename) + seq![0u8] + utf8_encode(mode) + seq![0u8] + enc_opts(options),
+        PktV::Data { block_num, data } => seq![0u8, 3u8] + be_bytes(block_num) + data,
+        PktV::Ack(n) => seq![0u8, 4u8] + be_bytes(n),
+        PktV::Error { code, msg } => seq![0u8, 5u8] + be_bytes(errcode_num(code)) + utf8_encode(msg) + seq![0u8],
+        PktV::Oack(options) => seq![0u8, 6u8] + enc_opts(options),
     }
 }
 
@@ -1163,6 +1226,34 @@ pub proof fn lemma_flatten_push(s: Seq<Seq<u8>>, x: Seq<u8>)
     ensures flatten(s.push(x)) == flatten(s) + x,
 {
     assert(s.push(x).drop_last() =~= s);
+}
+
+/// `flatten` of a short literal list, unfolded (used by the packet encoders)
+pub broadcast proof fn lemma_flatten_small(s: Seq<Seq<u8>>)
+    requires s.len() <= 5,
+    ensures
+        s.len() == 1 ==> #[trigger] flatten(s) == s[0],
+        s.len() == 2 ==> flatten(s) == s[0] + s[1],
+        s.len() == 3 ==> flatten(s) == s[0] + s[1] + s[2],
+        s.len() == 4 ==> flatten(s) == s[0] + s[1] + s[2] + s[3],
+        s.len() == 5 ==> flatten(s) == s[0] + s[1] + s[2] + s[3] + s[4],
+{
+    reveal_with_fuel(flatten, 6);
+    if s.len() >= 1 {
+        let s1 = s.drop_last();
+        if s.len() >= 2 {
+            let s2 = s1.drop_last();
+            if s.len() >= 3 {
+                let s3 = s2.drop_last();
+                if s.len() >= 4 {
+                    let s4 = s3.drop_last();
+                    if s.len() >= 5 { let s5 = s4.drop_last(); assert(flatten(s5) =~= Seq::<u8>::empty()); }
+                }
+            }
+        }
+        assert(flatten(s) =~= if s.len() == 1 { s[0] } else if s.len() == 2 { s[0] + s[1] } else if s.len() == 3 { s[0] + s[1] + s[2] }
+            else if s.len() == 4 { s[0] + s[1] + s[2] + s[3] } else { s[0] + s[1] + s[2] + s[3] + s[4] });
+    }
 }
 
 pub proof fn lemma_flatten_concat(a: Seq<Seq<u8>>, b: Seq<Seq<u8>>)
